@@ -254,9 +254,19 @@ func (s *Swarm) merge(buf []byte) (mesh.GossipData, error) {
 		return nil, err
 	}
 
+	// Serialize the merges, we compare the state before and after
+	s.Lock()
+	defer s.Unlock()
+
+	// Remember which of the incoming subscriptions we currently consider active
+	active := make(map[string]bool)
+	other.Subscriptions(func(ev *event.Subscription, _ event.Value) {
+		active[ev.Key()] = s.state.Has(ev)
+	})
+
 	// Merge and get the delta
 	delta := s.state.Merge(other)
-	other.Subscriptions(func(ev *event.Subscription, v event.Value) {
+	other.Subscriptions(func(ev *event.Subscription, _ event.Value) {
 		if ev.Peer == uint64(s.router.Ourself.Name) {
 			return // Skip ourselves
 		}
@@ -265,13 +275,17 @@ func (s *Swarm) merge(buf []byte) (mesh.GossipData, error) {
 		key := ev.Key()
 		peer := s.findPeer(mesh.PeerName(ev.Peer))
 
+		// The delta only tells which times are new, whether the subscription was
+		// added or removed is decided by how our own state has changed.
+		before, after := active[key], s.state.Has(ev)
+
 		// If the subscription is added, notify (TODO: use channels)
-		if v.IsAdded() && peer.onSubscribe(key, ev.Ssid) && peer.IsActive() {
+		if !before && after && peer.onSubscribe(key, ev.Ssid) && peer.IsActive() {
 			s.OnSubscribe(peer, ev)
 		}
 
 		// If the subscription is removed, notify (TODO: use channels)
-		if v.IsRemoved() && peer.onUnsubscribe(key, ev.Ssid) && peer.IsActive() {
+		if before && !after && peer.onUnsubscribe(key, ev.Ssid) && peer.IsActive() {
 			s.OnUnsubscribe(peer, ev)
 		}
 	})
